@@ -315,6 +315,22 @@ def r4(rr, repo):
         seen.add(act[0])
         rr.ob(f'{act[0]} is implemented by the documented operation', bool(b) and re.fullmatch(want[act[0]], b[-1].args[0]) is not None, mod, b[-1].node if b else exe, witness=b[-1].args[0][:120] if b else '', key=f'op|{act[0]}')
     rr.floor('table rows evaluated', len(seen), 8, mod, exe)
+    # executing a transform never writes into the xform record: it is shared by every frame (of any format) that passes
+    for name in ('execute_xforms', 'execute_xform_size', 'execute_xform_box'):
+        f = repo.find(f'{UT}::Util.{name}')[1]
+        params = q.func_params(f)
+        xname = 'xform'
+        for n in ast.walk(f):
+            tg = n.targets if isinstance(n, ast.Assign) else [n.target] if isinstance(n, (ast.AugAssign, ast.AnnAssign)) else []
+            for t in tg:
+                root = t
+                while isinstance(root, (ast.Attribute, ast.Subscript)):
+                    root = root.value
+                if isinstance(t, (ast.Attribute, ast.Subscript)) and isinstance(root, ast.Name) and root.id == xname:
+                    rr.violated(f'{name} stores into the shared xform record ({U(t)}): a value derived from one frame (e.g. a colour converted to that frame\'s channel order) is reused for frames of another format', mod, n, key=f'xform-write|{name}|{U(t)}')
+            if isinstance(n, ast.Call) and isinstance(n.func, ast.Attribute) and n.func.attr in ('update', 'setdefault', 'pop', '__setitem__', '__setattr__') and U(n.func.value) == xname:
+                rr.violated(f'{name} mutates the shared xform record', mod, n, key=f'xform-mutate|{name}')
+    rr.holds('xform records are only read while executing transforms', mod, exe, key='xform-readonly') if not any(o.key.split('|')[3:4] and ('xform-write' in o.key or 'xform-mutate' in o.key) for o in rr.obligations) else None
     _, box = repo.find(f'{UT}::Util.execute_xform_box')
     ev = Evaluator(repo, mod)
     bps = ev.run(box.body)
